@@ -4,7 +4,9 @@ import ipamcheck, plugincheck, plugingen
 THEOREMS = ["alloc_ranges_ok", "alloc_ranges_atomic", "rollback_restores"]
 REFUTED = []
 # the same property at the level of the scheduler plugin's Bind (Props/C08p.v, proofs in Proofs/PluginAnswerP.v)
-PLUGIN_THEOREMS = ["bind_ranges_in_order", "bind_all_or_nothing", "bind_ranges_in_order_nonvacuous", "bind_store_fault_keeps_nothing"]
+PLUGIN_THEOREMS = ["bind_ranges_in_order", "bind_all_or_nothing", "bind_ranges_in_order_nonvacuous", "bind_store_fault_keeps_nothing",
+                   "held_slot_is_first_in_walk_order", "by_key_ranges_deterministic", "held_slot_single_range", "held_slot_first_range",
+                   "held_slot_is_first_nonvacuous"]
 
 MANIFEST = {
     "text": "Coq theorems about the model of AllocateInSubnetsAndIPRange with the rollback loop modelled explicitly: alloc_ranges_ok "
